@@ -81,7 +81,9 @@ func serializeIdentifier(value string) string {
 	case '\f':
 		suffix = `\C `
 	case '0', '1', '2', '3', '4', '5', '6', '7', '8', '9':
-		suffix = fmt.Sprintf("\\%X", c)
+		// the trailing space ends the escape, so that a following
+		// hexadecimal digit or space is not swallowed by it
+		suffix = fmt.Sprintf("\\%X ", c)
 	default:
 		if c > 0x7F {
 			suffix = string(c)
@@ -170,7 +172,12 @@ func serializeURL(value string) string {
 		case ')':
 			mapped = `\)`
 		default:
-			mapped = string(c)
+			if c != utf8.RuneError && strings.ContainsRune(nonPrintable, c) {
+				// non-printable code points are not allowed in an unquoted url
+				mapped = fmt.Sprintf("\\%X ", c)
+			} else {
+				mapped = string(c)
+			}
 		}
 		chuncks.WriteString(mapped)
 	}
@@ -262,12 +269,25 @@ func (t Percentage) serializeTo(writer io.StringWriter) {
 func (t Dimension) serializeTo(writer io.StringWriter) {
 	writer.WriteString(t.Value)
 	// Disambiguate with scientific notation
-	if t.Unit == "e" || t.Unit == "E" || strings.HasPrefix(t.Unit, "e-") || strings.HasPrefix(t.Unit, "E-") {
-		writer.WriteString("\\65 ")
+	if unitLooksLikeExponent(t.Unit) {
+		if t.Unit[0] == 'E' {
+			writer.WriteString("\\45 ")
+		} else {
+			writer.WriteString("\\65 ")
+		}
 		writer.WriteString(serializeName(t.Unit[1:]))
 	} else {
 		writer.WriteString(serializeIdentifier(t.Unit))
 	}
+}
+
+// unitLooksLikeExponent returns true if the unit, written unescaped after a number,
+// could be read as (the start of) an exponent: "e", "e-...", "e<digit>..." (or "E").
+func unitLooksLikeExponent(unit string) bool {
+	if unit == "" || (unit[0] != 'e' && unit[0] != 'E') {
+		return false
+	}
+	return len(unit) == 1 || unit[1] == '-' || ('0' <= unit[1] && unit[1] <= '9')
 }
 
 func (t ParenthesesBlock) serializeTo(writer io.StringWriter) {
